@@ -111,7 +111,7 @@ Classify(K) ==
 (* A wire tree is a function from the field paths of a valid encoding to a   *)
 (* shape.  "ok" = the valid value; deviations: absent, null, and each wrong  *)
 (* JSON type.  Nested documents contribute the paths of their own fields.    *)
-Shapes == {"ok", "abs", "null", "str", "num", "bool", "obj", "arr"}
+Shapes == {"ok", "abs", "null", "str", "empty", "num", "bool", "obj", "arr"}   \* "empty" = the empty string
 (* base encodings: one per kind and document shape *)
 MutBases ==
   {[h |-> Hdr("x", "full", "full", "ident", "y"), b |-> b] :
@@ -148,16 +148,16 @@ Paths(e) ==
 (* the target cannot take is an error; raw sub-messages capture anything)    *)
 Last(p) == p[Len(p)]
 IsRaw(p) == Last(p) \in {"content", "resource", "value", "0", "authentication"}
-TextLike(p) == Last(p) \in {"id", "from", "pp", "to", "uri", "status", "encryption", "compression", "scheme",
+TextLike(p) == Last(p) \in {"id", "from", "pp", "to", "uri", "encryption", "compression", "scheme",
                             "description", "password", "k"}
-EnumLike(p) == Last(p) \in {"event", "method", "state", "type", "itemType"}   \* a string the target validates
+EnumLike(p) == Last(p) \in {"event", "method", "state", "status", "type", "itemType"}   \* a string the target validates
 ListLike(p) == Last(p) \in {"encryptionOptions", "compressionOptions", "schemeOptions", "items"}
 ObjLike(p)  == Last(p) \in {"metadata", "reason"}
 React(p, s) ==
   IF s \in {"abs", "null"} THEN "unset"
   ELSE IF s = "ok" THEN "set"
   ELSE IF IsRaw(p) THEN "set"                                  \* checked by the document decode below
-  ELSE IF TextLike(p) THEN (IF s = "str" THEN "set" ELSE "err")
+  ELSE IF TextLike(p) THEN (IF s \in {"str", "empty"} THEN "set" ELSE "err")
   ELSE IF EnumLike(p) THEN "err"                               \* "str" here = a string the type rejects
   ELSE IF Last(p) = "code" THEN (IF s = "num" THEN "set" ELSE "err")
   ELSE IF ListLike(p) THEN (IF s = "arr" THEN "set" ELSE "err")   \* "arr" = empty array
@@ -166,12 +166,12 @@ React(p, s) ==
 
 (* ---------------------------------------------------------------- C11 ---- *)
 ReqCases == {[id |-> i, frm |-> f, pp |-> p, to |-> t, method |-> m, builder |-> b, doc |-> d, reason |-> r] :
-               i \in {"", "x"}, f \in {"", "full"}, p \in {"", "full"}, t \in {"", "full"}, m \in Methods,
+               i \in {"", "x"}, f \in {"", "full", "name"}, p \in {"", "full", "ident"}, t \in {"", "full"}, m \in Methods,
                b \in {"success", "successRes", "failure"},
                d \in {D1("ping"), D1("text"), D1("json"), D2("cont", "text"), Doc(<<"coll", "json">>, 1)},
                r \in {"", "y"}}
 MsgCases == {[id |-> i, frm |-> f, pp |-> p, to |-> t, method |-> e, builder |-> b, doc |-> NoDoc, reason |-> r] :
-               i \in {"", "x"}, f \in {"", "full"}, p \in {"", "full"}, t \in {"", "full"}, e \in Events,
+               i \in {"", "x"}, f \in {"", "full", "name"}, p \in {"", "full", "ident"}, t \in {"", "full"}, e \in Events,
                b \in {"notification", "failedNotification"}, r \in {"", "y"}}
 ReplyCases == {c \in ReqCases : (c.builder = "successRes" \/ c.doc = D1("ping"))
                                 /\ (c.builder = "failure" \/ c.reason = "")}
@@ -190,7 +190,7 @@ ReplyOf(c) ==
    wire |-> IF c.builder = "successRes" /\ ~FixResourceType THEN "err" ELSE "ok"]
 
 (* --------------------------------------------------------------- text ---- *)
-Alpha == {"a", "@", "/", "+"}
+Alpha == {"a", "B", "@", "/", "+"}
 Strs(n) == UNION {[1 .. k -> Alpha] : k \in 0 .. n}
 RECURSIVE Str(_)
 Str(s) == IF s = <<>> THEN "" ELSE s[1] \o Str(Tail(s))   \* sequences of 1-char strings -> string
@@ -252,7 +252,7 @@ DocOutcome(p, spec, dev) ==     \* p: path of the raw value holding a document o
             ELSE DocOutcome(p \o <<"items", "0">>, Tail(spec), dev)
   ELSE  \* leaf: text wants a string, the json-like ones an object
        IF sh = "ok" THEN "ok"
-       ELSE IF Head(spec) \in {"text", "utext"} THEN (IF sh = "str" THEN "ok" ELSE "err")
+       ELSE IF Head(spec) \in {"text", "utext"} THEN (IF sh \in {"str", "empty"} THEN "ok" ELSE "err")
        ELSE (IF sh = "obj" THEN "ok" ELSE "err")
 
 (* fields json.Unmarshal decodes eagerly into rawEnvelope, whatever the kind *)
@@ -272,10 +272,10 @@ MutOutcome(e, dev) ==
                  THEN (IF ~Present(dev, <<"type">>) THEN "err" ELSE DocOutcome(<<"resource">>, DocSpec(e.b.doc), dev))
                  ELSE "ok"
             [] kind = "ses" -> IF "authentication" \in K /\ ~Present(dev, <<"scheme">>) THEN "err"
-                               ELSE IF "authentication" \in K /\ Sh(dev, <<"scheme">>) = "str" THEN "err"  \* no factory for it
+                               ELSE IF "authentication" \in K /\ Sh(dev, <<"scheme">>) \in {"str", "empty"} THEN "err"  \* no factory for it
                                ELSE IF "authentication" \in K /\ Sh(dev, <<"authentication">>) \notin {"ok", "obj"} THEN "err"
                                ELSE IF "authentication" \in K /\ Sh(dev, <<"authentication">>) = "ok"
-                                       /\ Sh(dev, <<"authentication", "password">>) \notin {"ok", "abs", "null", "str"} THEN "err"
+                                       /\ Sh(dev, <<"authentication", "password">>) \notin {"ok", "abs", "null", "str", "empty"} THEN "err"
                                ELSE "ok"
             [] OTHER -> "ok"
 
